@@ -339,3 +339,382 @@ impl Init {
         Step::Ok { annot, outs }
     }
 }
+
+// ---------------------------------------------------------------------------------------------
+// responder
+
+/// responder peers `4h..4h+3` share host `10.0.0.h`
+pub fn rpid(i: u64) -> PeerId { PeerId { host: format!("10.0.0.{}", i / 4), port: (3000 + i % 4) as u16 } }
+pub fn ridx(p: &PeerId) -> u64 {
+    let h: u64 = p.host.rsplit('.').next().and_then(|x| x.parse().ok()).unwrap_or(0);
+    h * 4 + (p.port as u64 - 3000)
+}
+fn rhost(h: &str) -> u64 { h.rsplit('.').next().and_then(|x| x.parse().ok()).unwrap_or(0) }
+
+fn show_resp_event(e: &ResponderEvent) -> String {
+    match e {
+        ResponderEvent::PeerInitialized(p, (v, _)) => format!("ev.init:{}:{}", ridx(p), v),
+        ResponderEvent::PeerDisconnected(p) => format!("ev.disc:{}", ridx(p)),
+        ResponderEvent::IntersectionRequested(p, _) => format!("ev.isectreq:{}", ridx(p)),
+        ResponderEvent::NextHeaderRequested(p) => format!("ev.nextreq:{}", ridx(p)),
+        ResponderEvent::BlockRangeRequested(p, r) => format!("ev.rangereq:{}:{}", ridx(p), point_id(&r.1)),
+        ResponderEvent::PeersRequested(p, n) => format!("ev.peersreq:{}:{}", ridx(p), n),
+        ResponderEvent::TxReceived(p, _) => format!("ev.txrecv:{}", ridx(p)),
+        ResponderEvent::EbNotificationRequested(p) => format!("ev.ebnotereq:{}", ridx(p)),
+        ResponderEvent::EbRequested(p, e) => format!("ev.ebreq:{}:{}", ridx(p), point_id(e)),
+        ResponderEvent::EbTxsRequested(p, e, _) => format!("ev.ebtxsreq:{}:{}", ridx(p), point_id(e)),
+    }
+}
+fn show_rpeer(i: u64, st: &ResponderState) -> String {
+    format!("{}:{}:v{}:e{}:{}", i, show_conn(st.verif_connection()), st.verif_violation() as u8, st.verif_error_count(),
+        [show_hs(st.verif_handshake()), show_ka(st.verif_keepalive()), show_ps(st.verif_peersharing()), show_bf(st.verif_blockfetch()),
+         show_cs(st.verif_chainsync()), show_tx(st.verif_tx_submission()), show_ln(st.verif_leios_notify()), show_lf(st.verif_leios_fetch())].join("/"))
+}
+
+pub struct Resp { pub b: ResponderBehavior, pub dead: bool }
+
+impl Resp {
+    pub fn new(max_err: u32, max_per_ip: usize, tbl: &str) -> Option<Self> {
+        use pallas_network2::behavior::responder::{connection, handshake};
+        let mut values = HashMap::new();
+        if tbl != "-" { for e in tbl.split(',') { let (v, m) = e.split_once('-')?; values.insert(nat(v)?, version_data(nat(m)?, Some(1))); } }
+        let b = ResponderBehavior {
+            connection: connection::ConnectionResponder::new(connection::ConnectionResponderConfig { max_error_count: max_err, max_connections_per_ip: max_per_ip }),
+            handshake: handshake::HandshakeResponder::new(handshake::HandshakeResponderConfig { supported_version: proto::handshake::VersionTable { values } }),
+            ..Default::default()
+        };
+        Some(Resp { b, dead: false })
+    }
+    pub fn drain(&mut self) -> Vec<OutItem> {
+        let waker = futures::task::noop_waker();
+        let mut cx = std::task::Context::from_waker(&waker);
+        let mut v = vec![];
+        while let std::task::Poll::Ready(Some(o)) = self.b.poll_next_unpin(&mut cx) {
+            v.push(match o {
+                BehaviorOutput::InterfaceCommand(InterfaceCommand::Connect(p)) => OutItem::Connect(ridx(&p)),
+                BehaviorOutput::InterfaceCommand(InterfaceCommand::Disconnect(p)) => OutItem::Disconnect(ridx(&p)),
+                BehaviorOutput::InterfaceCommand(InterfaceCommand::Send(p, m)) => OutItem::Send(ridx(&p), show_msg(&m, true)),
+                BehaviorOutput::ExternalEvent(e) => OutItem::Event(show_resp_event(&e)),
+            });
+        }
+        v
+    }
+    pub fn state_text(&self, outs: &[OutItem]) -> String {
+        let mut ps: Vec<(u64, &ResponderState)> = self.b.peers.iter().map(|(k, v)| (ridx(k), v)).collect();
+        ps.sort_by_key(|x| x.0);
+        let mut banned: Vec<u64> = self.b.connection.verif_banned().iter().map(ridx).collect();
+        banned.sort();
+        let mut acc: Vec<u64> = self.b.connection.verif_accepted().iter().map(ridx).collect();
+        acc.sort();
+        let mut ips: Vec<(u64, usize)> = self.b.connection.verif_connections_per_ip().iter().map(|(h, c)| (rhost(h), *c)).collect();
+        ips.sort();
+        format!("[{}] B[{}] A[{}] n{} IP[{}] |{}",
+            outs.iter().map(|o| o.text()).collect::<Vec<_>>().join(" "), join(&banned, ","), join(&acc, ","), self.b.connection.verif_active_peers(),
+            ips.iter().map(|(h, c)| format!("{h}:{c}")).collect::<Vec<_>>().join(" "),
+            ps.iter().map(|(i, st)| format!(" {}", show_rpeer(*i, st))).collect::<String>())
+    }
+    pub fn exec(&mut self, op: &[String]) -> Step {
+        if self.dead { return Step::Dead; }
+        let a: Vec<&str> = op.iter().map(|s| s.as_str()).collect();
+        let p = |s: &str| nat(s).map(rpid);
+        enum Act { Cmd(ResponderCommand), Io(InterfaceEvent<AnyMessage>) }
+        let list = |l: &str| -> Option<Vec<u64>> { if l == "-" || l.is_empty() { Some(vec![]) } else { l.split(',').map(nat).collect() } };
+        let act = match a.as_slice() {
+            ["hk", ..] => Some(Act::Cmd(ResponderCommand::Housekeeping)),
+            ["idle", ..] => Some(Act::Io(InterfaceEvent::Idle)),
+            ["connected", x] => p(x).map(|x| Act::Io(InterfaceEvent::Connected(x))),
+            ["disconnected", x] => p(x).map(|x| Act::Io(InterfaceEvent::Disconnected(x))),
+            ["error", x] => p(x).map(|x| Act::Io(InterfaceEvent::Error(x, InterfaceError::Other("err".into())))),
+            ["sent", x, m] => p(x).and_then(|x| parse_msg(m).map(|m| Act::Io(InterfaceEvent::Sent(x, m)))),
+            ["recv", x, ms @ ..] => p(x).and_then(|x| ms.iter().map(|m| parse_msg(m)).collect::<Option<Vec<_>>>().map(|ms| Act::Io(InterfaceEvent::Recv(x, ms)))),
+            ["isect", x, v] => p(x).and_then(|x| nat(v).map(|v| Act::Cmd(ResponderCommand::ProvideIntersection(x, point(v), tip())))),
+            ["header", x, v] => p(x).and_then(|x| nat(v).map(|v| Act::Cmd(ResponderCommand::ProvideHeader(x, header(v), tip())))),
+            ["rollback", x, v] => p(x).and_then(|x| nat(v).map(|v| Act::Cmd(ResponderCommand::ProvideRollback(x, point(v), tip())))),
+            ["blocks", x, l] => p(x).and_then(|x| list(l).map(|l| Act::Cmd(ResponderCommand::ProvideBlocks(x, l.iter().map(|b| b.to_be_bytes().to_vec()).collect())))),
+            ["peers", x, l] => p(x).and_then(|x| list(l).map(|l| Act::Cmd(ResponderCommand::ProvidePeers(x, l.iter().map(|i| addr(*i)).collect())))),
+            ["ebann", x] => p(x).map(|x| Act::Cmd(ResponderCommand::ProvideEbAnnouncement(x, any_cbor()))),
+            ["eboffer", x] => p(x).map(|x| Act::Cmd(ResponderCommand::ProvideEbOffer(x, point(1), 10))),
+            ["ebtxsoffer", x] => p(x).map(|x| Act::Cmd(ResponderCommand::ProvideEbTxsOffer(x, point(1)))),
+            ["votes", x] => p(x).map(|x| Act::Cmd(ResponderCommand::ProvideVotes(x, vec![any_cbor()]))),
+            ["eb", x] => p(x).map(|x| Act::Cmd(ResponderCommand::ProvideEb(x, any_cbor()))),
+            ["ebtxs", x] => p(x).map(|x| Act::Cmd(ResponderCommand::ProvideEbTxs(x, point(1), proto::leiosfetch::Bitmaps::all(3), vec![any_cbor()]))),
+            ["ban", x] => p(x).map(|x| Act::Cmd(ResponderCommand::BanPeer(x))),
+            ["disc", x] => p(x).map(|x| Act::Cmd(ResponderCommand::DisconnectPeer(x))),
+            _ => None,
+        };
+        let Some(act) = act else { return Step::Bad; };
+        let is_hk = matches!(a[0], "hk" | "idle");
+        let order: Vec<u64> = if is_hk { self.b.peers.keys().map(ridx).collect() } else { vec![] };
+        let b = &mut self.b;
+        let r = guard_mut(move || match act { Act::Cmd(c) => b.execute(c), Act::Io(e) => b.handle_io(e) });
+        if r.is_none() { self.dead = true; return Step::Panic; }
+        let annot = if is_hk { format!("@ {} ;  @ ", join(&order, " ")) } else { String::new() };
+        let outs = self.drain();
+        Step::Ok { annot, outs }
+    }
+}
+
+// ---------------------------------------------------------------------------------------------
+// C28: abstract connections with a specification-conformant responder. The tables below are
+// written from DESIGN.md Appendix A (Ouroboros network spec / CIP-164), independently of both the
+// pallas `State::apply` functions and the Lean model; messages are the canonical tokens.
+
+#[derive(Clone, Debug, PartialEq)]
+pub struct Wire { pub hs: char, pub ka: char, pub ps: char, pub bf: char, pub cs: char, pub tx: char, pub ln: char, pub lf: char }
+impl Default for Wire { fn default() -> Self { Wire { hs: 'P', ka: 'C', ps: 'I', bf: 'I', cs: 'I', tx: 'N', ln: 'I', lf: 'I' } } }
+impl Wire {
+    pub fn text(&self) -> String { [self.hs, self.ka, self.ps, self.bf, self.cs, self.tx, self.ln, self.lf].iter().collect() }
+}
+pub fn kind(tok: &str) -> &str { tok.split(':').next().unwrap_or("") }
+pub fn proto_of(tok: &str) -> &str { tok.split('.').next().unwrap_or("") }
+
+/// what the initiator (client agency) may send in view `w`
+pub fn client_step(w: &Wire, tok: &str) -> Option<Wire> {
+    let mut n = w.clone();
+    match (kind(tok), w) {
+        ("hs.propose", Wire { hs: 'P', .. }) => n.hs = 'C',
+        ("ka.keepalive", Wire { ka: 'C', .. }) => n.ka = 'S',
+        ("ka.done", Wire { ka: 'C', .. }) => n.ka = 'D',
+        ("ps.req", Wire { ps: 'I', .. }) => n.ps = 'B',
+        ("ps.done", Wire { ps: 'I', .. }) => n.ps = 'D',
+        ("bf.req", Wire { bf: 'I', .. }) => n.bf = 'B',
+        ("bf.clientdone", Wire { bf: 'I', .. }) => n.bf = 'D',
+        ("cs.reqnext", Wire { cs: 'I', .. }) => n.cs = 'A',
+        ("cs.find", Wire { cs: 'I', .. }) => n.cs = 'X',
+        ("cs.done", Wire { cs: 'I', .. }) => n.cs = 'D',
+        ("tx.init", Wire { tx: 'N', .. }) => n.tx = 'I',
+        ("tx.replyids", Wire { tx: 'b', .. }) | ("tx.replyids", Wire { tx: 'n', .. }) => n.tx = 'I',
+        ("tx.replytxs", Wire { tx: 'T', .. }) => n.tx = 'I',
+        ("tx.done", Wire { tx: 'b', .. }) => n.tx = 'D',
+        ("ln.reqnext", Wire { ln: 'I', .. }) => n.ln = 'B',
+        ("ln.done", Wire { ln: 'I', .. }) => n.ln = 'D',
+        ("lf.blockreq", Wire { lf: 'I', .. }) => n.lf = 'A',
+        ("lf.txsreq", Wire { lf: 'I', .. }) => n.lf = 'T',
+        ("lf.done", Wire { lf: 'I', .. }) => n.lf = 'D',
+        _ => return None,
+    }
+    Some(n)
+}
+/// what the responder (server agency) may send in view `w`
+pub fn server_step(w: &Wire, tok: &str) -> Option<Wire> {
+    let mut n = w.clone();
+    match (kind(tok), w) {
+        ("hs.accept", Wire { hs: 'C', .. }) | ("hs.refuse", Wire { hs: 'C', .. }) | ("hs.query", Wire { hs: 'C', .. }) => n.hs = 'D',
+        ("ka.resp", Wire { ka: 'S', .. }) => n.ka = 'C',
+        ("ps.peers", Wire { ps: 'B', .. }) => n.ps = 'I',
+        ("bf.start", Wire { bf: 'B', .. }) => n.bf = 'S',
+        ("bf.noblocks", Wire { bf: 'B', .. }) => n.bf = 'I',
+        ("bf.block", Wire { bf: 'S', .. }) => {}
+        ("bf.batchdone", Wire { bf: 'S', .. }) => n.bf = 'I',
+        ("cs.await", Wire { cs: 'A', .. }) => n.cs = 'M',
+        ("cs.fwd", Wire { cs: 'A', .. }) | ("cs.fwd", Wire { cs: 'M', .. }) | ("cs.bwd", Wire { cs: 'A', .. }) | ("cs.bwd", Wire { cs: 'M', .. }) => n.cs = 'I',
+        ("cs.found", Wire { cs: 'X', .. }) | ("cs.notfound", Wire { cs: 'X', .. }) => n.cs = 'I',
+        ("ln.announce", Wire { ln: 'B', .. }) | ("ln.offer", Wire { ln: 'B', .. }) | ("ln.txsoffer", Wire { ln: 'B', .. }) | ("ln.votes", Wire { ln: 'B', .. }) => n.ln = 'I',
+        ("lf.block", Wire { lf: 'A', .. }) => n.lf = 'I',
+        ("lf.blocktxs", Wire { lf: 'T', .. }) => n.lf = 'I',
+        _ => return None,
+    }
+    Some(n)
+}
+pub fn reply_choices(w: &Wire, cookie: u64, proto: &str) -> Vec<String> {
+    let v: Vec<String> = match (proto, w) {
+        ("hs", Wire { hs: 'C', .. }) => vec!["hs.accept:13:1".into(), "hs.accept:15:1".into(), "hs.refuse".into(), "hs.query".into()],
+        ("ka", Wire { ka: 'S', .. }) => vec![format!("ka.resp:{cookie}")],
+        ("ps", Wire { ps: 'B', .. }) => vec!["ps.peers:-".into(), "ps.peers:7,8".into()],
+        ("bf", Wire { bf: 'B', .. }) => vec!["bf.start".into(), "bf.noblocks".into()],
+        ("bf", Wire { bf: 'S', .. }) => vec!["bf.block:9".into(), "bf.batchdone".into()],
+        ("cs", Wire { cs: 'A', .. }) => vec!["cs.await".into(), "cs.fwd:7".into(), "cs.bwd:3".into()],
+        ("cs", Wire { cs: 'M', .. }) => vec!["cs.fwd:7".into(), "cs.bwd:3".into()],
+        ("cs", Wire { cs: 'X', .. }) => vec!["cs.found:3".into(), "cs.notfound".into()],
+        ("ln", Wire { ln: 'B', .. }) => vec!["ln.announce".into(), "ln.offer".into(), "ln.txsoffer".into(), "ln.votes".into()],
+        ("lf", Wire { lf: 'A', .. }) => vec!["lf.block".into()],
+        ("lf", Wire { lf: 'T', .. }) => vec!["lf.blocktxs".into()],
+        _ => vec![],
+    };
+    v
+}
+
+#[derive(Clone, Default)]
+pub struct Link {
+    pub w: Wire,
+    pub cookie: u64,
+    /// (message, emitted on a protocol whose views had diverged by a Send-before-confirmation)
+    pub unconfirmed: std::collections::VecDeque<(String, bool)>,
+    pub to_resp: std::collections::VecDeque<(String, bool)>,
+    pub to_init: std::collections::VecDeque<String>,
+    /// protocols on which a Send was emitted while an earlier one was unconfirmed (DESIGN §6 #16)
+    pub diverged: std::collections::BTreeSet<String>,
+}
+#[derive(Clone)]
+pub enum LinkSt { Pending, Up(Link) }
+
+pub struct SchedSys {
+    pub init: Init,
+    pub links: std::collections::BTreeMap<u64, LinkSt>,
+    pub observed: usize,
+    pub ids: std::collections::BTreeSet<u64>,
+    pub sends: usize,
+    pub delivered: usize,
+}
+
+pub enum SchedStep { Ok(String), Panic, Dead, Bad }
+
+const COMMANDS: [&str; 11] = ["include", "hk", "idle", "startsync", "continuesync", "reqblocks", "sendtx", "fetcheb", "fetchebtxs", "ban", "demote"];
+
+impl SchedSys {
+    pub fn new(init: Init) -> Self {
+        SchedSys { init, links: Default::default(), observed: 0, ids: Default::default(), sends: 0, delivered: 0 }
+    }
+    fn absorb(&mut self, outs: &[OutItem]) {
+        for o in outs {
+            match o {
+                OutItem::Connect(p) => { if !self.links.contains_key(p) { self.links.insert(*p, LinkSt::Pending); } }
+                OutItem::Send(p, m) => {
+                    if let Some(LinkSt::Up(l)) = self.links.get_mut(p) {
+                        // once a Send overlapped an unconfirmed one of the same protocol, the initiator's and the
+                        // responder's views of that protocol on this connection have diverged for good
+                        if l.unconfirmed.iter().any(|(u, _)| proto_of(u) == proto_of(m)) { l.diverged.insert(proto_of(m).to_string()); }
+                        let taint = l.diverged.contains(proto_of(m));
+                        l.unconfirmed.push_back((m.clone(), taint));
+                        l.to_resp.push_back((m.clone(), taint));
+                        self.sends += 1;
+                    }
+                }
+                _ => {}
+            }
+        }
+    }
+    /// feed one concrete event/command to the real initiator; returns (annot, outs) or the failure
+    fn feed(&mut self, op: Vec<String>) -> Result<(String, Vec<OutItem>), SchedStep> {
+        match self.init.exec(&op) {
+            Step::Ok { annot, outs } => { self.absorb(&outs); Ok((annot, outs)) }
+            Step::Panic => Err(SchedStep::Panic),
+            Step::Dead => Err(SchedStep::Dead),
+            Step::Bad => Err(SchedStep::Bad),
+        }
+    }
+    pub fn text(&self, outs: &[OutItem]) -> String {
+        let mut s = format!("{} | obs{}", self.init.state_text(outs), self.observed);
+        for (p, l) in &self.links {
+            match l {
+                LinkSt::Pending => s += &format!(" L{p}=pending"),
+                LinkSt::Up(l) => s += &format!(" L{p}=up/u{}/r{}/i{}/{}", l.unconfirmed.len(), l.to_resp.len(), l.to_init.len(), l.w.text()),
+            }
+        }
+        s
+    }
+    fn note_ids(&mut self, op: &[String]) {
+        // same rule as the Lean stream: every peer id mentioned by the op (ord/taken ids are added by the annotation on the model side)
+        for t in op.iter().skip(1) {
+            if t == "@" || t == ";" { continue; }
+            if let Some(rest) = t.strip_prefix("ps.peers:") { for x in rest.split(',') { if let Ok(v) = x.parse() { self.ids.insert(v); } } }
+        }
+        let a: Vec<&str> = op.iter().map(|s| s.as_str()).collect();
+        match a.as_slice() {
+            ["include", p] | ["continuesync", p] | ["ban", p] | ["demote", p] | ["connect", p] | ["confirm", p] | ["arrive", p]
+            | ["drop", p] | ["fail", p] | ["fetcheb", p, _] | ["fetchebtxs", p, _] | ["reply", p, _, _] | ["deliver", p, _] => { if let Ok(v) = p.parse() { self.ids.insert(v); } }
+            _ => {}
+        }
+    }
+    fn arrive(&mut self, p: u64, out: &mut Out) {
+        if let Some(LinkSt::Up(l)) = self.links.get_mut(&p) {
+            if let Some((m, taint)) = l.to_resp.pop_front() {
+                match client_step(&l.w, &m) {
+                    Some(w) => { if kind(&m) == "ka.keepalive" { l.cookie = m.split(':').nth(1).and_then(|x| x.parse().ok()).unwrap_or(0); } l.w = w; }
+                    None => {
+                        // ---- the property: a conformant responder observes a violation ----
+                        self.observed += 1;
+                        let view = match proto_of(&m) { "hs" => l.w.hs, "ka" => l.w.ka, "ps" => l.w.ps, "bf" => l.w.bf, "cs" => l.w.cs, "tx" => l.w.tx, "ln" => l.w.ln, _ => l.w.lf };
+                        out.viol(format!("{} {} in-state-{}", if taint { "send-before-sent" } else { "nonconformant" }, kind(&m), view),
+                                 format!("peer {p}: responder view {} received {}", l.w.text(), m));
+                    }
+                }
+            }
+        }
+    }
+    pub fn exec(&mut self, op: &[String], out: &mut Out) -> SchedStep {
+        if self.init.dead { return SchedStep::Dead; }
+        self.note_ids(op);
+        let a: Vec<&str> = op.iter().map(|s| s.as_str()).collect();
+        let nat = |s: &str| s.parse::<u64>().ok();
+        let r: Result<(String, Vec<OutItem>), SchedStep> = match a.as_slice() {
+            [c, ..] if COMMANDS.contains(c) => self.feed(op.to_vec()),
+            ["connect", p] => match nat(p) {
+                Some(p) => if matches!(self.links.get(&p), Some(LinkSt::Pending)) {
+                    self.links.insert(p, LinkSt::Up(Link::default()));
+                    self.feed(vec!["connected".into(), p.to_string()])
+                } else { Ok((String::new(), vec![])) },
+                None => Err(SchedStep::Bad),
+            },
+            ["confirm", p] => match nat(p) {
+                Some(p) => {
+                    let m = if let Some(LinkSt::Up(l)) = self.links.get_mut(&p) { l.unconfirmed.pop_front() } else { None };
+                    match m { Some((m, _)) => self.feed(vec!["sent".into(), p.to_string(), m]), None => Ok((String::new(), vec![])) }
+                }
+                None => Err(SchedStep::Bad),
+            },
+            ["confirmall"] => {
+                let ps: Vec<u64> = self.links.keys().cloned().collect();
+                let mut res = Ok((String::new(), vec![]));
+                'outer: for p in ps {
+                    loop {
+                        let m = if let Some(LinkSt::Up(l)) = self.links.get_mut(&p) { l.unconfirmed.pop_front() } else { None };
+                        let Some((m, _)) = m else { break; };
+                        if let Err(e) = self.feed(vec!["sent".into(), p.to_string(), m]) { res = Err(e); break 'outer; }
+                    }
+                }
+                res
+            }
+            ["arrive", p] => match nat(p) { Some(p) => { self.arrive(p, out); Ok((String::new(), vec![])) } None => Err(SchedStep::Bad) },
+            ["arriveall"] => {
+                let ps: Vec<u64> = self.links.keys().cloned().collect();
+                for p in ps {
+                    let n = if let Some(LinkSt::Up(l)) = self.links.get(&p) { l.to_resp.len() } else { 0 };
+                    for _ in 0..n { self.arrive(p, out); }
+                }
+                Ok((String::new(), vec![]))
+            }
+            ["reply", p, x, k] => match (nat(p), nat(k)) {
+                (Some(p), Some(k)) => {
+                    if let Some(LinkSt::Up(l)) = self.links.get_mut(&p) {
+                        let ch = reply_choices(&l.w, l.cookie, x);
+                        if !ch.is_empty() {
+                            let m = ch[(k as usize) % ch.len()].clone();
+                            if let Some(w) = server_step(&l.w, &m) { l.w = w; l.to_init.push_back(m); }
+                        }
+                    }
+                    Ok((String::new(), vec![]))
+                }
+                _ => Err(SchedStep::Bad),
+            },
+            ["deliver", p, n] => match (nat(p), nat(n)) {
+                (Some(p), Some(n)) => {
+                    let ms: Vec<String> = if let Some(LinkSt::Up(l)) = self.links.get_mut(&p) {
+                        let k = (n as usize + 1).min(l.to_init.len());
+                        l.to_init.drain(0..k).collect()
+                    } else { vec![] };
+                    if ms.is_empty() { Ok((String::new(), vec![])) } else {
+                        self.delivered += ms.len();
+                        let mut v = vec!["recv".to_string(), p.to_string()];
+                        v.extend(ms);
+                        self.feed(v)
+                    }
+                }
+                _ => Err(SchedStep::Bad),
+            },
+            ["drop", p] => match nat(p) {
+                Some(p) => if self.links.remove(&p).is_some() { self.feed(vec!["disconnected".into(), p.to_string()]) } else { Ok((String::new(), vec![])) },
+                None => Err(SchedStep::Bad),
+            },
+            ["fail", p] => match nat(p) {
+                Some(p) => if self.links.contains_key(&p) { self.feed(vec!["error".into(), p.to_string()]) } else { Ok((String::new(), vec![])) },
+                None => Err(SchedStep::Bad),
+            },
+            _ => Err(SchedStep::Bad),
+        };
+        match r {
+            Ok((annot, outs)) => SchedStep::Ok(format!("{}{}", annot, self.text(&outs))),
+            Err(e) => e,
+        }
+    }
+}
